@@ -139,6 +139,12 @@ class ListWrapper(typing.MutableSequence[T]):
     def remove(self, v: T) -> None:
         del self[self._data.index(v)]
 
+    def reverse(self) -> None:
+        # Reversing changes no element's ownership. The MutableSequence mixin
+        # would swap elements through __setitem__, which removes and re-adds
+        # them one at a time and fails for owning subclasses.
+        self._data.reverse()
+
     # extend is not in every version of Python 3, so list wrapper adds it here
     # itself.
     def extend(self, other: typing.Iterable[T]) -> None:
